@@ -244,14 +244,20 @@ fn gen_pbd(rng: &mut Rng, out: &mut dyn Write, n_files: usize) {
             let first_child = (0..n).find(|j| parent[*j] == Some(i)).map(|j| link_pos[j] as u16).unwrap_or(0xFFFF);
             let par = parent[i].map(|p| link_pos[p] as u16).unwrap_or(0xFFFF);
             links[link_pos[i]] = format!("{}:{}:{}:{}", par, first_child, next_sib, item_pos[i]);
-            let nb = match rng.below(6) {
-                0 => 0,
-                1 => 1,
-                _ => rng.range(1, 5),
+            // now and then one block larger than 32 KiB, so that name offsets use the whole u16 range
+            let big = fi % 40 == 0 && i == n - 1;
+            let nb = if big {
+                rng.range(700, 1200)
+            } else {
+                match rng.below(6) {
+                    0 => 0,
+                    1 => 1,
+                    _ => rng.range(1, 5),
+                }
             } as usize;
             let bones: Vec<String> = (0..nb)
                 .map(|_| {
-                    let len = rng.range(1, 14) as usize;
+                    let len = if big { rng.range(1, 2) } else { rng.range(1, 14) } as usize;
                     let name: Vec<u8> = (0..len)
                         .map(|_| match rng.below(8) {
                             0 => rng.range(1, 127) as u8,
